@@ -1,33 +1,57 @@
 #!/bin/bash
 # dev aid: confirm_seed.sh <srcdir> <id> <x>  — confirm a seeded change in a scratch worktree of /repo HEAD:
 #   demo passes on HEAD, fails with the patch; patched tree builds and passes the existing suite.
-# writes <srcdir>/confirm.json
+# writes <srcdir>/confirm.json. Handles several demonstration files living in different packages.
 set -u
 src="$1"; id="$2"; x="$3"
 export GOFLAGS=-mod=mod GOPROXY=off GOSUMDB=off GOTOOLCHAIN=local; unset GOWORK
 W=/tmp/cs/$id$x
 rm -rf $W; git -C /repo worktree prune; git -C /repo worktree add --detach -q $W HEAD || exit 3
-demo=$(ls $src/zz_seeded_*_test.go 2>/dev/null | head -1)
-dir=$(grep -oE '(bcs|kernel|lib)/[A-Za-z0-9_/.-]+/zz_seeded' $src/DEMO.txt | head -1 | sed 's#/zz_seeded##')
-[ -z "$dir" ] && dir=$(grep -oE '\./(bcs|kernel|lib)/[A-Za-z0-9_/.-]+' $src/DEMO.txt | head -1 | sed 's#^\./##; s#/$##')
-pat=$(grep -oE "\-run[ =]+'?[A-Za-z0-9_|^$]+'?" $src/DEMO.txt | head -1 | sed -E "s/-run[ =]+//; s/'//g")
-[ -z "$pat" ] && pat=Seeded
-res() { python3 - "$@" <<'PY'
-import json,sys
-k=sys.argv[1:]
-d=dict(zip(k[::2],k[1::2]))
-json.dump(d,open(d['out'],'w'),indent=1)
+python3 - "$src" "$W" "$id$x" <<'PY'
+import sys,os,re,json,subprocess,shutil
+src,W,sid=sys.argv[1:4]
+demo=open(src+'/DEMO.txt').read()
+files=sorted(f for f in os.listdir(src) if re.match(r'zz_seeded.*_test\.go$',f))
+dirs=re.findall(r'((?:bcs|kernel|lib)/[A-Za-z0-9_/.-]+?)/?(?=[\s`\'",;:)]|$)',demo)
+dirs=[d.rstrip('/') for d in dirs if os.path.isdir(os.path.join(W,d.rstrip('/')))]
+default=dirs[0] if dirs else None
+place={}
+for f in files:
+    m=re.search(r'((?:bcs|kernel|lib)/[A-Za-z0-9_/.-]+)/'+re.escape(f),demo) or re.search(re.escape(f)+r'\s*(?:->|→|to|into)\s*`?((?:bcs|kernel|lib)/[A-Za-z0-9_/.-]+)',demo)
+    d=m.group(1).rstrip('/') if m and os.path.isdir(os.path.join(W,m.group(1))) else default
+    place[f]=d
+pat=re.search(r"-run[ =]+'?\"?([A-Za-z0-9_|^$.*]+)",demo)
+pat=pat.group(1) if pat else 'Seeded'
+if len(set(place.values()))>1 or True:
+    # a pattern that matches every seeded test of this change
+    pat='Seeded|ZZSeeded' if not re.search(r'Seeded',pat) else pat
+env=dict(os.environ)
+def run(cmd):
+    p=subprocess.run(cmd,shell=True,cwd=W,env=env,capture_output=True,text=True)
+    return p.stdout+p.stderr
+def demos():
+    out=[]
+    for d in sorted(set(place.values())):
+        o=run(f"go test -vet=off -count=1 -run '{pat}' ./{d}/")
+        out+= [l for l in o.splitlines() if re.match(r'^(ok|FAIL|---|panic)',l)]
+    return ';'.join(out)[:400]
+res={"id":sid,"dirs":sorted(set(place.values())),"run":pat,"files":place}
+if None in place.values() or not files:
+    res["error"]="cannot place demo files"; json.dump(res,open(src+'/confirm.json','w'),indent=1); sys.exit(0)
+for f,d in place.items(): shutil.copy(os.path.join(src,f),os.path.join(W,d,f))
+res["demo_on_head"]=demos()
+a=subprocess.run("git apply "+src+"/patch.diff",shell=True,cwd=W,capture_output=True,text=True)
+if a.returncode!=0:
+    a=subprocess.run("patch -p1 -s < "+src+"/patch.diff",shell=True,cwd=W,capture_output=True,text=True)
+res["patch_applied"]="yes" if a.returncode==0 else "no"
+res["demo_with_patch"]=demos()
+for f,d in place.items(): os.remove(os.path.join(W,d,f))
+res["build"]=';'.join(run("go build $(go list ./... | grep -v kvdb/badger)").splitlines()[-3:])
+o=run("go test -vet=off -count=1 ./...")
+res["suite_failures_with_patch"]=';'.join(sorted(set(l for l in o.splitlines() if re.match(r'^(--- FAIL|FAIL|panic)',l))))[:600]
+res["head"]=subprocess.run("git -C /repo rev-parse --short HEAD",shell=True,capture_output=True,text=True).stdout.strip()
+res["dir"]=sorted(set(place.values()))[0]
+json.dump(res,open(src+'/confirm.json','w'),indent=1)
+print(json.dumps(res,indent=1))
 PY
-}
-cp $demo $W/$dir/ || { res out $src/confirm.json error "cannot place demo in $dir"; exit 3; }
-cd $W
-p1=$(go test -vet=off -count=1 -run "$pat" ./$dir/ 2>&1 | grep -E '^(ok|FAIL|---|panic)' | tr '\n' ';' | cut -c1-300)
-applied=yes
-git apply $src/patch.diff 2>/tmp/cs/$id$x.apply || { patch -p1 -s < $src/patch.diff || applied=no; }
-p2=$(go test -vet=off -count=1 -run "$pat" ./$dir/ 2>&1 | grep -E '^(ok|FAIL|---|panic)' | tr '\n' ';' | cut -c1-300)
-rm -f $W/$dir/$(basename $demo)
-b=$(go build $(go list ./... | grep -v kvdb/badger) 2>&1 | tail -3 | tr '\n' ';')
-suite=$(go test -vet=off -count=1 ./... 2>&1 | grep -E '^(--- FAIL|FAIL|panic)' | sort -u | tr '\n' ';' | cut -c1-600)
 cd /; git -C /repo worktree remove --force $W
-res out $src/confirm.json id "$id$x" dir "$dir" run "$pat" demo_on_head "$p1" patch_applied "$applied" demo_with_patch "$p2" build "$b" suite_failures_with_patch "$suite" head "$(git -C /repo rev-parse --short HEAD)"
-cat $src/confirm.json
